@@ -172,7 +172,11 @@ def run(ctx):
                       "X bq 4 4 %d 2" % (2000 if not thorough else 30000), "X ring %d 8" % (300000 if not thorough else 5000000),
                       "X ring %d 1" % (50000 if not thorough else 1000000), "X ring %d 2" % (100000 if not thorough else 2000000)]
             wake = ["W put", "W take"] * (3 if not thorough else 30)
-            lines += stress + wake
+            # several blocked callers released one by one through every put / take entry point: each state change must
+            # wake one of them (the model issues one notify per successful put / take)
+            many = ["M put %s %d %d" % (api, cap, w) for api in ("take", "taketo", "trytake") for cap, w in ((4, 3), (1, 2))] + \
+                   ["M take %s %d %d" % (api, cap, w) for api in ("put", "putrv", "tryput", "tryputrv", "putto", "puttorv") for cap, w in ((4, 3),)]
+            lines += stress + wake + many
             li, lm, _ = vlib.run_pair(ctx, impl_exe, model_exe, lines, "c10h", timeout=1800)
             nontrivial = 0
             disagree = 0
@@ -191,6 +195,15 @@ def run(ctx):
                 if line.startswith("X "):
                     if ri != "X lost=0 dup=0 order=1 bounded=1":
                         v.property_failure("concurrent-stress", "concurrent producers/consumers: %s" % ri, line, ri)
+                    else:
+                        nontrivial += 1
+                    continue
+                if line.startswith("M "):
+                    w = line.split()[4]
+                    if ri != "M early=0 finished=%s/%s" % (w, w):
+                        v.property_failure("caller-left-blocked", "callers blocked in %s stay blocked although the %s calls that followed made room / data "
+                                           "for all of them (a put / take entry point does not wake a waiter): %s" % (
+                                               "queue()/tryQueue(timeout)" if line.split()[1] == "put" else "dequeue()", line.split()[2], ri), line, ri)
                     else:
                         nontrivial += 1
                     continue
